@@ -175,7 +175,7 @@ def add_controls(wn, ctrls):
                 if attr == "status":
                     ev = {"OPEN": wntr.network.LinkStatus.Open, "CLOSED": wntr.network.LinkStatus.Closed}[ev]
                 els = [C.ControlAction(target, attr, ev)]
-            wn.add_control(name, C.Rule(cond, [act], els, priority=c.get("prio", 3)))
+            wn.add_control(name, C.Rule(cond, [act], els, priority=c.get("prio", 3), **({"name": c["rule_name"]} if "rule_name" in c else {})))
         else:
             wn.add_control(name, C.Control(cond, act, priority=c.get("prio", 3)))
 
